@@ -12,7 +12,7 @@ ENTRY = ["chartparse.chart.Chart.from_file", "chartparse.chart.Chart.from_filepa
 def rules(ctx, rep, entries, floors=True):
     P = Purity(ctx, entries)
     r1 = rep.rule("W1+W2+W5.writes", "every write in the package targets an object allocated inside the same call (or self during "
-                                     "construction); nothing writes module/class-level state", floor=10 if floors else 0)
+                                     "construction); nothing writes module/class-level state", floor=5 if floors else 0)
     P.check_writes(r1, "all")
     r1b = rep.rule("W5.closures", "nested helpers write only fresh locals of their enclosing call", floor=1 if floors else 0)
     P.check_free_roots(r1b)
@@ -20,9 +20,9 @@ def rules(ctx, rep, entries, floors=True):
     P.check_defaults(r3)
     r4 = rep.rule("W4+W6.memo", "memoised functions and cached properties are pure, hashable-keyed and return immutable values", floor=8 if floors else 0)
     P.check_memoised(r4)
-    r7 = rep.rule("W7.ambient", "parse-reachable code reads no ambient state (environment, clock, randomness, argv, other files, hash())", floor=40 if floors else 0)
+    r7 = rep.rule("W7.ambient", "parse-reachable code reads no ambient state (environment, clock, randomness, argv, other files, hash())", floor=20 if floors else 0)
     P.check_ambient(r7, "all" if ctx.tier == "thorough" and floors else "reach")
-    r8 = rep.rule("W8.order", "no result is built by iterating an unordered set (hash-seed dependent order)", floor=10 if floors else 0)
+    r8 = rep.rule("W8.order", "no result is built by iterating an unordered set (hash-seed dependent order)", floor=5 if floors else 0)
     P.check_unordered(r8, "all" if ctx.tier == "thorough" and floors else "reach")
     r9 = rep.rule("import-time", "import-time effects are the verified list (logging.basicConfig only)", floor=1 if floors else 0)
     P.check_import_time(r9)
